@@ -675,9 +675,12 @@ impl FileStateMachine {
                                     // restored even when less than a whole second is left;
                                     // truncating that to 0 and skipping the registration
                                     // would leave the key without any expiry.
+                                    // Round up: expire_at was already truncated to whole
+                                    // seconds when the WAL record was written; truncating
+                                    // again here would expire the key up to two seconds early.
                                     let remaining = expire_at
                                         .duration_since(now)
-                                        .map(|d| d.as_secs())
+                                        .map(|d| d.as_secs() + u64::from(d.subsec_nanos() > 0))
                                         .unwrap_or(0)
                                         .max(1);
 
